@@ -24,7 +24,7 @@ TOL_ACC = {'f64': 1e-13, 'f32': 1e-4}
 TOL_STAGE = {'f64': 1e-12, 'f32': 1e-3}
 PARAMS = {  # nprog, maxlen, chainlen, nchain   per family
     'quick': {0: (8, 200, 1000, 3), 1: (8, 200, 1000, 3), 2: (6, 200, 1000, 3), 3: (4, 120, 1000, 3)},
-    'thorough': {0: (48, 200, 100000, 9), 1: (40, 200, 100000, 8), 2: (24, 200, 100000, 6), 3: (16, 200, 10000, 6)},
+    'thorough': {0: (96, 200, 100000, 12), 1: (72, 200, 100000, 12), 2: (48, 200, 100000, 9), 3: (32, 200, 10000, 9)},
 }
 
 
@@ -338,15 +338,19 @@ class C15:
             tf = tag_fields(l.tag)
             opn = tf.get('word', l.op)
             key = f'{opn}|{l.grp}|{l.prec}'
-            s = eps.setdefault(key, [0.0, 0.0, 0])
-            s[0], s[1], s[2] = max(s[0], e[0]), max(s[1], e[1]), s[2] + 1
+            opdef = e[2] if len(e) > 2 else 0.0
+            if not tf['prog'].startswith('s'):     # fan-in programs are informational only
+                s = eps.setdefault(key, [0.0, 0.0, 0, 0.0])
+                s[0], s[1], s[2] = max(s[0], e[0]), max(s[1], e[1]), s[2] + 1
+                if opdef <= (1e-15 if l.prec == 'f64' else 1e-6):
+                    s[3] = max(s[3], e[0])         # operands unit to a few ulp: the op's own rounding
             tan = step_tangent(l)
             band = rot_band(l.grp, tan, l.prec)[0] if tan is not None else '-'
-            if tan is not None:
+            if tan is not None and not tf['prog'].startswith('s'):
                 bk = f'{l.grp}|{l.prec}|{band}'
                 eps_band[bk] = max(eps_band.get(bk, 0.0), e[0])
             if 'k' in tf:
-                step_eps[(tf['prog'], int(tf['k']))] = (e[0], band, opn)
+                step_eps[(tf['prog'], int(tf['k']))] = (e[0], band, opn, e[2] if len(e) > 2 else 0.0)
         t_eps = time.time() - t0
 
         # ---- history audit
@@ -390,7 +394,7 @@ class C15:
                     if not (d1 <= TOL_DEFECT['f64']) and 'drift' not in viol:
                         viol['drift'] = (k, defect, (k + 1) * TOL_DEFECT['f64'])
                     if not (e1 <= TOL_ACC['f64']) and 'accuracy' not in viol:
-                        viol['accuracy'] = (k, err, (k + 1) * TOL_ACC['f64'])
+                        viol['accuracy'] = (k, err, (k + 1) * TOL_ACC['f64'], defect)
                 else:
                     fi = hist_stats['float_informational'].setdefault(gk, {'worst_defect_per_op': 0.0, 'worst_err_per_op': 0.0,
                                                                            'over_1e-5_defect': 0, 'over_1e-4_err': 0})
@@ -401,34 +405,62 @@ class C15:
             if len(samples) < 8 and rows and (len(samples) < 4 or p.n > 100):
                 samples.append({'group': p.grp, 'prec': p.prec, 'shape': p.shape, 'n': p.n, 'program': p.describe(12),
                                 'last_checkpoint': {'err': rows[-1][0], 'defect': rows[-1][1], 'min_qw': rows[-1][2], 'k': int(rows[-1][5])}})
-            for kind, (k, val, tol) in viol.items():
-                failing.append((p, kind, k, val, tol))
+            for kind, vv in viol.items():
+                failing.append((p, kind, vv[0], vv[1], vv[2], vv[3] if len(vv) > 3 else 0.0))
 
         # ---- findings with culprit attribution
-        for (p, kind, k, val, tol) in failing:
-            culprit, band, ceps, ck = 'accumulation', '-', 0.0, None
+        for (p, kind, k, val, tol, defect_k) in failing:
+            culprit, band, ceps, ck, cdef = 'none', '-', 0.0, None, 0.0
+            cause = 'accumulation'
             if kind in ('accuracy', 'drift', 'nonfinite'):
                 # the worst single step up to k whose own error exceeds the per-op budget
                 for kk in range(1, k + 1):
                     se = step_eps.get((p.id, kk))
                     if se and se[0] > TOL_ACC[p.prec] and se[0] > ceps:
-                        ceps, band, culprit, ck = se[0], se[1], se[2], kk
-            key = {'kind': kind, 'group': p.grp, 'prec': p.prec, 'shape': p.shape.split(':')[0], 'culprit_op': culprit, 'theta_band': band}
+                        ceps, band, culprit, ck, cdef = se[0], se[1], se[2], kk, se[3]
+                if culprit != 'none':
+                    if band == 'above_switch':
+                        cause = 'exp_above_switch'
+                    elif cdef > 0 and ceps <= 8 * cdef:
+                        # M(a)·M(b) ≠ M(a·b) by the operands' own constraint defect: the step error is the drift
+                        cause = 'operand_norm_drift'
+                    else:
+                        cause = 'single_op'
+                elif kind == 'accuracy' and defect_k * k >= 0.4 * val:
+                    # linear norm drift δ_j ≈ δ_k·j/k feeds Σ_j δ_j ≈ δ_k·k/2 into the translation part
+                    cause = 'operand_norm_drift'
+            elif kind == 'sign':
+                cause = 'sign'
+            key = {'kind': kind, 'group': p.grp, 'prec': p.prec, 'shape': p.shape.split(':')[0], 'cause': cause,
+                   'culprit_op': culprit, 'theta_band': band}
             f = {'property': PID, 'key': key, 'err': val if math.isfinite(val) else None, 'tol': tol, 'n': p.n, 'k': k,
                  'what': {'accuracy': f'register differs from the exact result of the same history by {val:.3g} relative after {k} ops (bound {tol:.3g})',
                           'drift': f'constraint defect |‖q‖²−1| = {val:.3g} after {k} ops (bound {tol:.3g})',
                           'sign': f'canonical sign lost: q_w = {-val:.3g} < 0 after {k} ops',
                           'nonfinite': f'non-finite coefficient after {k} ops'}[kind],
-                 'culprit_step': {'k': ck, 'op': culprit, 'theta_band': band, 'own_error': ceps},
+                 'culprit_step': {'k': ck, 'op': culprit, 'theta_band': band, 'own_error': ceps, 'operand_defect': cdef},
+                 'defect_at_k': defect_k, 'shape': p.shape,
                  'program': p.describe(), 'line': p.line.request() + ' # ' + p.line.tag}
-            if shrink and p.n <= 400 and len([x for x in findings if x['key'] == key]) < 1:
+            f['_prog'] = p
+            findings.append(f)
+        # shrink the worst program of every key (delta debugging on the op list)
+        worst_of = {}
+        for f in findings:
+            if '_prog' in f:
+                gk = json.dumps(f['key'], sort_keys=True)
+                if gk not in worst_of or (f.get('err') or 0) > (worst_of[gk].get('err') or 0):
+                    worst_of[gk] = f
+        for f in worst_of.values():
+            pp = f['_prog']
+            if shrink and pp.n <= 400:
                 try:
-                    sh = self.shrink(ctx, p, kind)
+                    sh = self.shrink(ctx, pp, f['key']['kind'])
                     if sh:
                         f['shrunk'] = sh
                 except Exception as e:  # the shrinker is a convenience, never a verdict
                     f['shrunk_error'] = str(e)[:200]
-            findings.append(f)
+        for f in findings:
+            f.pop('_prog', None)
         t_hist = time.time() - t0
 
         # ---- odeint law
@@ -495,7 +527,7 @@ class C15:
                'step_lines': len(steps), 'op_mix': opmix, 'exp_argument_bands': strata,
                'program_length_histogram': length_hist, 'programs_by_shape': self.by_shape(progs),
                't1_stats': t1['stats'], 't1_breaks': len(t1['breaks']), 'register_machine_t1': run_stats,
-               'per_op_eps': {k: {'matrix': v[0], 'norm2': v[1], 'n': v[2]} for k, v in sorted(eps.items())},
+               'per_op_eps': {k: {'matrix': v[0], 'matrix_unit_operands': v[3], 'norm2': v[1], 'n': v[2]} for k, v in sorted(eps.items())},
                'per_op_eps_by_exp_band': dict(sorted(eps_band.items())),
                'history_audit': hist_stats, 'odeint': ode_stats, 'modified_midpoint_probe': mm,
                'audit_samples': hist_stats['checkpoints'] + len(stepsel) + len(odefin) + len(odestg),
@@ -587,19 +619,24 @@ class C15:
             f = b.get('first')
             if isinstance(f, dict) and isinstance(f.get('line'), str) and f['line'].split()[0] in STEP_OPS + ('hist_audit',):
                 reqs.append(f['line'])
-        ode = [Line(c['line']) for c in payload.get('cases', []) if isinstance(c.get('line'), str) and c['line'].startswith('hist_ode')
-               and c['line'].split()[0] in ('hist_odefinal', 'hist_odestage')]
+        stage = []
+        for c in payload.get('cases', []):
+            ln = c.get('line')
+            if isinstance(ln, str) and ln.startswith('hist_odefinal'):
+                reqs.append(ln)
+            elif isinstance(ln, str) and ln.startswith('hist_odestage'):
+                stage.append(Line(ln))
         probe = any(c.get('key', {}).get('stepper') == 'modified_midpoint' for c in payload.get('cases', []))
         lines = []
         if reqs:
             for out in self.reexec(reqs):
                 if out:
                     lines += out
-        if ode:
-            # integrate_n_steps results are regenerated by the generator with the stored seed
+        if stage:
+            # stage states are regenerated by the generator with the stored seed
             gl = [l for l in self.gen(dict(ctx, seed=payload.get('seed', ctx['seed']), tier=payload.get('tier', ctx['tier'])))
-                  if l.op in ('hist_odefinal', 'hist_odestage')]
-            want = {(l.op, l.grp, l.prec, tuple(l.ins)) for l in ode}
+                  if l.op == 'hist_odestage']
+            want = {(l.op, l.grp, l.prec, tuple(l.ins)) for l in stage}
             lines += [l for l in gl if (l.op, l.grp, l.prec, tuple(l.ins)) in want]
         if not lines and not probe:
             return {'coverage': {}, 'findings': [], 'broken': payload.get('no_longer_checks', [])}
